@@ -9,6 +9,7 @@ FLOAT_TB = "IEEE-754 rounding: theorems are over exact rationals; the f64 instan
 CONSTS = {"script": "gen_consts.py"}
 UNITS = {"script": "gen_units.py"}
 DISPLAY_CONSTS = {"script": "gen_display_consts.py"}
+REPORT_COLORS = {"script": "gen_report_colors.py"}
 UNITS_ALT = {"script": "gen_units.py", "args": ["lean/CookModel/Gen/UnitsAlt.lean", "corpus/C09/alt_units.toml", "GenAlt"]}
 
 UNITS_LAY = {"script": "gen_units.py", "args": ["lean/CookModel/Gen/UnitsLay.lean", "@repo", "GenLay", "corpus/C12/frac_layer.toml"]}
@@ -72,8 +73,9 @@ PROPS = {
                         "oracle values are finite, non-negative, with magnitudes in [1e-3, 1e7]; sums are compared with relative tolerance 1e-9 of the summed magnitudes"],
     },
     "C04": {
-        "gen": [CONSTS, CHARTABLE],
-        "trusted_base": COMMON_TB + SYNTAX_TB,
+        "gen": [CONSTS, REPORT_COLORS, CHARTABLE],
+        "trusted_base": COMMON_TB + SYNTAX_TB + [
+            "translators/gen_report_colors.py (the colour table ColorGenerator::COLORS of src/error.rs -> Gen/ReportColors.lean, by yansi colour name; the colour of every painted piece of every coloured report is compared with the model by the correspondence run)"],
         "assumptions": ["theorems cover the lexer (tiling, boundaries) and text assembly (fragment faithfulness, order) for every input; the span arithmetic of the individual block parsers and of the analysis labels is covered by the correspondence run (every span of every event/diagnostic compared with the model) and by the oracle on the implementation, not by a theorem yet"],
     },
     "C06": {
